@@ -22,8 +22,9 @@ ObjSorts == {"Evt", "Jet", "Trk"}
 SeqOf(x) == "Seq" \o x
 (* packaging sorts: Pair = (Int, Int); Rec = {k1: Int, k2: Int}; Nest = (Pair, Int);  *)
 (* RecP = {k1: Pair, k2: Int}; PS = (SeqJet, Int)                                     *)
-PackSorts == {"Pair", "Rec", "Nest", "RecP", "PS"}
-ElemSorts == ObjSorts \cup {"Int"} \cup (IF Fam \in {"chain", "chain1", "chainx"} THEN PackSorts ELSE {})
+PackSorts == {"Pair", "Rec", "Nest", "RecP", "PS", "PSP"}      \* PSP = (SeqPair, Int)
+ElemSorts == IF Fam = "chainp" THEN {"Evt", "Jet", "Int", "Pair", "PSP"}      \* nested packaging, few sorts, deep
+             ELSE ObjSorts \cup {"Int"} \cup (IF Fam \in {"chain", "chain1", "chainx"} THEN PackSorts ELSE {})
 SeqSorts == {SeqOf(x) : x \in ElemSorts}
 Elem(sq) == CHOOSE x \in ElemSorts : SeqOf(x) = sq
 IsSeqSort(s) == s \in SeqSorts
@@ -35,7 +36,7 @@ Fields == { <<"Evt", "met", "Int">>, <<"Evt", "n", "Int">>, <<"Evt", "jets", "Se
 
 (* ------------------------------------------------------------------ *)
 (* production families                                                *)
-Binders == CASE Fam \in {"fuse1", "chain1", "md1", "chainx"} -> {"x"}
+Binders == CASE Fam \in {"fuse1", "chain1", "md1", "chainx", "chainp"} -> {"x"}
              [] Fam = "helper" -> {"a", "t"}
              [] OTHER -> {"x", "y"}
 
@@ -58,6 +59,7 @@ Enabled(prod) ==
                                     "Add", "Beta"}
       [] Fam = "agg"   -> prod \in {"Select", "Where", "SelectMany", "Count", "Len", "Sum", "Max", "Min",
                                     "Add", "Cmp", "First"}
+      [] Fam = "chainp" -> prod \in {"Select", "Add", "Pack"}
       [] Fam \in {"chain", "chain1", "chainx"} ->
                           prod \in {"Select", "Where", "SelectMany", "Cmp", "Add", "Pack", "Count"}
       [] Fam = "meth"  -> prod \in {"Select", "Where", "SelectMany", "First", "Count", "Cmp", "Add", "Sum",
@@ -66,7 +68,7 @@ Enabled(prod) ==
                                     "AggOdd", "First"}
       [] Fam = "md1"   -> prod \in {"Select", "Where", "Count", "Cmp", "MD"}
       [] Fam = "md"    -> prod \in {"Select", "Where", "SelectMany", "Count", "Cmp", "Add", "MD", "First"}
-      [] Fam = "comp"  -> prod \in {"Comp", "Select", "Count", "Sum", "Cmp", "Add", "First"}
+      [] Fam = "comp"  -> prod \in {"Comp", "Select", "Count", "Sum", "Cmp", "Add", "First", "True"}
       [] Fam = "helper" -> prod \in {"Select", "Where", "SelectMany", "Helper", "Add", "Cmp", "Count", "First"}
       [] Fam = "e2e"   -> prod \in {"Select", "Where", "SelectMany", "First", "Count", "Add", "Mul", "Cmp", "If",
                                     "TupProj", "MethArgs", "MethKw", "Sum", "And", "BetaDef"}
@@ -96,6 +98,8 @@ ProjRefs(s, ns, ss) ==
              [] vs = "RecP" /\ s = "Int" -> {Sub(Attr(v, "k1"), IntC(0)), Sub(v, StrC("k2"))}
              [] vs = "PS" /\ s = "Int"   -> {Sub(v, IntC(1))}
              [] vs = "PS" /\ s = "SeqJet" -> {Sub(v, IntC(0))}
+             [] vs = "PSP" /\ s = "Int"   -> {Sub(v, IntC(1))}
+             [] vs = "PSP" /\ s = "SeqPair" -> {Sub(v, IntC(0))}
              [] OTHER -> {} :
            i \in {j \in 1..Len(ns) : Visible(ns, j)}}
 
@@ -116,7 +120,7 @@ Leaves(s, ns, ss) ==
       \cup (IF s = "SeqEvt" THEN {Name("ds")} ELSE {})
       \cup (IF s = "Int" THEN {IntC(1)} ELSE {})
       \cup (IF s = "Bool" /\ Enabled("True") THEN {BoolC(TRUE)} ELSE {})
-      \cup (IF s = "Bool" /\ Fam = "comp"
+      \cup (IF s = "Bool" /\ (Fam = "comp" \/ Rand)      \* (random walks must never dead-end on a Boolean hole)
             THEN {Cmp(">", f, IntC(1)) : f \in VarsOf("Int", ns, ss) \cup FieldRefs("Int", ns, ss)} ELSE {})
 
 Split2(r) == {<<i, r - i>> : i \in 0..r}
@@ -161,7 +165,8 @@ NonLeaf(h) ==
       (* ---- packaging ---- *)
       (IF s = "Pair" /\ Enabled("Pack") THEN
           {Tup(<<Hole("Int", sp[1], ns, ss), Hole("Int", sp[2], ns, ss)>>) : sp \in Split2(r)} \cup
-          {Lst(<<Hole("Int", sp[1], ns, ss), Hole("Int", sp[2], ns, ss)>>) : sp \in Split2(r)}
+          (IF Fam = "chainp" THEN {} ELSE
+           {Lst(<<Hole("Int", sp[1], ns, ss), Hole("Int", sp[2], ns, ss)>>) : sp \in Split2(r)})
        ELSE {}) \cup
       (IF s = "Rec" /\ Enabled("Pack") THEN
           {Dct(<<StrC("k1"), Hole("Int", sp[1], ns, ss), StrC("k2"), Hole("Int", sp[2], ns, ss)>>) :
@@ -173,6 +178,9 @@ NonLeaf(h) ==
       (IF s = "RecP" /\ Enabled("Pack") THEN
           {Dct(<<StrC("k1"), Hole("Pair", sp[1], ns, ss), StrC("k2"), Hole("Int", sp[2], ns, ss)>>) :
               sp \in Split2(r)}
+       ELSE {}) \cup
+      (IF s = "PSP" /\ Enabled("Pack") THEN
+          {Tup(<<Hole("SeqPair", sp[1], ns, ss), Hole("Int", sp[2], ns, ss)>>) : sp \in Split2(r)}
        ELSE {}) \cup
       (IF s = "PS" /\ Enabled("Pack") THEN
           {Tup(<<Hole("SeqJet", sp[1], ns, ss), Hole("Int", sp[2], ns, ss)>>) : sp \in Split2(r)}
@@ -317,6 +325,7 @@ NonLeaf(h) ==
           {CallK(Name("h_kw"), <<Hole("Int", sp[1], ns, ss)>>, <<"y">>, <<Hole("Int", sp[2], ns, ss)>>) :
               sp \in Split2(r)} \cup
           {CallK(Name("h_kw"), <<>>, <<"x">>, <<Hole("Int", r, ns, ss)>>)} \cup
+          {Fn("h_deep", <<Hole("Evt", r, ns, ss)>>)} \cup
           {Fn("h_d3", <<Hole("Int", r, ns, ss)>>)} \cup
           {Fn("h_d3", <<Hole("Int", sp[1], ns, ss), Hole("Int", sp[2], ns, ss)>>) : sp \in Split2(r)} \cup
           {CallK(Name("h_d3"), <<Hole("Int", sp[1], ns, ss)>>, <<"z">>, <<Hole("Int", sp[2], ns, ss)>>) : sp \in Split2(r)}
@@ -353,7 +362,7 @@ Fill(t) ==
     ELSE LET i == CHOOSE j \in 1..Len(t.a) : HasHole(t.a[j]) /\ \A m \in 1..(j - 1) : ~HasHole(t.a[m])
          IN {[t EXCEPT !.a[i] = c] : c \in Fill(t.a[i])}
 
-RootSorts == CASE Fam \in {"idx", "chain", "chain1", "chainx"} -> {"SeqInt"}
+RootSorts == CASE Fam \in {"idx", "chain", "chain1", "chainx", "chainp"} -> {"SeqInt"}
                [] Fam \in {"agg"} -> {"SeqInt", "Int"}
                [] Fam = "helper" -> {"SeqInt", "SeqJet"}
                [] Fam = "e2e" -> {"SeqInt", "SeqJet", "SeqEvt"}
